@@ -360,6 +360,62 @@ def u2(prog: Program, chk: Check) -> None:
         raise AnalysisError(f"U2: only {n} START-typed call sites (floor 10)")
 
 
+def u2b(prog: Program, chk: Check) -> None:
+    """A function that calls a START-consuming callee without binding START and owns no
+    START itself loses the start time if one of its (transitive) callers owns one."""
+    chk.rule("U2b", "the start time is not lost along a call chain: a call that leaves a "
+             "START parameter of its callee at the default is only allowed if no (transitive) "
+             "caller of the enclosing function owns a start time", floor=1)
+    callers: Dict[str, Set[str]] = {}
+    sites = []
+    for u in prog.units.values():
+        if isinstance(u.node, ast.Lambda):
+            continue
+        for c in walk_local(u.node):
+            if not isinstance(c, ast.Call):
+                continue
+            for callee in rolebind._candidates(prog, u, c):
+                if callee is None:
+                    continue
+                callers.setdefault(callee.qual, set()).add(u.qual)
+                b = rolebind._bind(callee, c)
+                if b is None:
+                    continue
+                if "**" in b:
+                    b.update(rolebind._expand_kwargs(u, b.pop("**")))
+                for p in callee.params:
+                    if rolebind.role_of_name(p) == "START" and p not in b and \
+                            rolebind._has_default(callee, p):
+                        sites.append((u, c, callee, p))
+    n = 0
+    for (u, c, callee, p) in sites:
+        own = rolebind.owned_roles(u, {"START"})
+        if "START" in own:
+            continue        # judged by U2
+        # transitive callers owning START
+        seen, work, owner = set(), [u.qual], None
+        while work and owner is None:
+            q = work.pop()
+            if q in seen:
+                continue
+            seen.add(q)
+            for cq in callers.get(q, ()):
+                cu = prog.units[cq]
+                if "START" in rolebind.owned_roles(cu, {"START"}):
+                    owner = cu
+                    break
+                work.append(cq)
+        n += 1
+        chk.add("U2b", u, f"{norm(c.func)}(...) leaves `{p}` of {callee.qual.split(':')[1]} at "
+                f"its default", owner is None,
+                "no caller owns a start time" if owner is None else
+                f"{owner.qual.split(':')[1]} owns a start time, but it is dropped on the way: the "
+                f"callee runs from its default start time (explicit time dependences are "
+                f"evaluated at unshifted times)", c)
+    if n < 1:
+        raise AnalysisError("U2b: no call leaving a START default found (anchor vanished)")
+
+
 def run(prog: Program, chk: Check) -> None:
     chk.explanation = (
         "Decides every place where an absolute time is manufactured or consumed: if each such "
@@ -377,3 +433,4 @@ def run(prog: Program, chk: Check) -> None:
     u1_u3(prog, chk)
     u1_counts(prog, chk, TimeForms(prog))
     u2(prog, chk)
+    u2b(prog, chk)
